@@ -1,3 +1,1147 @@
 package main
 
-func genPanicSites(repo, dir string) {}
+// Static panic-site table (Gen/PanicSites.lean).  go/ast only — no type information.  For every function of the library
+// packages that can run under Parse (non-test files of the root package, coerce/, core/, internal/, jsonschema/, locales/,
+// pkg/, types/) it lists every construct that can panic at run time, with
+//
+//	kind     assert    x.(T) without comma-ok (and not the tag of a type switch)
+//	         reflectV  a reflect.Value method that panics on the wrong kind / an invalid or nil value, and the reflect package
+//	                   functions that do (Append, MakeMap, Zero, New, …)
+//	         reflectT  a reflect.Type method that panics on the wrong kind (Elem, Key, Field, NumField, In, Out, Len, …)
+//	         store     an assignment through an index expression (a nil map, or a slice index out of range)
+//	         index     x[i] read, i not a string literal (a string-literal key can only index a map: reads never panic)
+//	         slice     x[a:b] with a bound that is not a literal
+//	         div       integer division / remainder by something that is not a non-zero literal (floats are indistinguishable
+//	                   without types: they are listed too)
+//	         bigdiv    (*big.Int / big.Rat).Div/Mod/Quo/Rem/DivMod/QuoRem/SetFrac/Inv
+//	         panic     an explicit panic(…)
+//	         mustcall  a call of a Must* function (its contract is to panic) from a function that is not itself Must*
+//	guards   the syntactic tests found on the SAME operand (same root identifier, or an identifier derived from it by a
+//	         conversion / reflect.ValueOf / method chain / dereference) in an enclosing if / switch / for condition, or in a
+//	         preceding statement of an enclosing block that is an `if` ending in return / continue / break / panic / goto:
+//	         ok (a comma-ok result), typeswitch (inside a case of a type switch over the operand), kind (Kind() / Type() /
+//	         ConvertibleTo / AssignableTo / CanX / Comparable / a case of switch x.Kind()), valid (IsValid), nilTest (== nil,
+//	         != nil, IsNil), len (len(x), x.Len(), NumField, NumIn…), ranged (the index is the key of a range over the operand
+//	         or over its length), nonzero (a comparison of the operand with 0, Sign(), IsZero), made (the operand was created
+//	         in this function by make / a composite literal / append), pred (a call of an Is*/Has*/Can* helper on the operand)
+//	scope    plain | recovered (the function installs `defer func(){ … recover() … }()`) | must (Must* function) | initf (init / package var)
+//
+// Which guard is adequate for which kind is decided in Lean (Proofs/C04Sites.lean), not here.  Unknown ⇒ no guard listed.
+
+import (
+	"fmt"
+	"go/ast"
+	"go/token"
+	"os"
+	"path/filepath"
+	"sort"
+	"strings"
+)
+
+var siteDirs = []string{".", "coerce", "core", "internal", "jsonschema", "locales", "pkg", "types"}
+
+type site struct {
+	file, fn, kind, operand string
+	guards                  []string
+	scope                   string
+	line                    int
+}
+
+// methods of reflect.Value that panic on the wrong kind / zero Value / nil
+var reflVDistinct = map[string]bool{"Interface": true, "MapIndex": true, "MapKeys": true, "MapRange": true, "SetMapIndex": true, "NumField": true,
+	"FieldByName": true, "FieldByIndex": true, "NumMethod": true, "MethodByName": true, "Elem": true, "Convert": true, "SetInt": true, "SetUint": true,
+	"SetFloat": true, "SetString": true, "SetBool": true, "SetBytes": true, "SetLen": true, "SetCap": true, "SetComplex": true, "SetZero": true, "SetIterKey": true, "SetIterValue": true,
+	"IsNil": true, "CallSlice": true, "UnsafePointer": true, "OverflowInt": true, "OverflowUint": true, "OverflowFloat": true,
+	"NumIn": true, "NumOut": true, "Slice3": true}
+var reflVAmbiguous = map[string]bool{"Len": true, "Index": true, "Field": true, "Set": true, "Int": true, "Uint": true, "Float": true, "Bool": true, "Bytes": true,
+	"Slice": true, "Cap": true, "Type": true, "Method": true, "Complex": true, "Call": true, "Pointer": true, "In": true, "Out": true, "Key": true, "IsVariadic": true, "Addr": true, "Grow": true, "Clear": true}
+var reflTPanics = map[string]bool{"Elem": true, "Key": true, "Field": true, "NumField": true, "In": true, "Out": true, "NumIn": true, "NumOut": true, "Len": true,
+	"FieldByName": true, "FieldByIndex": true, "IsVariadic": true, "Method": true, "ChanDir": true}
+var reflPkgPanics = map[string]bool{"Append": true, "AppendSlice": true, "Copy": true, "MakeSlice": true, "MakeMap": true, "MakeMapWithSize": true, "Zero": true, "New": true,
+	"NewAt": true, "MakeFunc": true, "MakeChan": true, "MapOf": true, "ArrayOf": true, "StructOf": true, "FuncOf": true, "Select": true, "Swapper": true}
+var reflVResult = map[string]bool{"Elem": true, "Index": true, "Field": true, "FieldByName": true, "FieldByIndex": true, "MapIndex": true, "Convert": true, "Slice": true,
+	"Slice3": true, "Addr": true, "Key": true, "Value": true, "Method": true, "MethodByName": true}
+var reflVCtor = map[string]bool{"ValueOf": true, "Indirect": true, "New": true, "Zero": true, "MakeMap": true, "MakeSlice": true, "MakeMapWithSize": true, "Append": true,
+	"AppendSlice": true, "MakeFunc": true, "NewAt": true}
+var reflTCtor = map[string]bool{"TypeOf": true, "TypeFor": true, "PointerTo": true, "PtrTo": true, "SliceOf": true, "MapOf": true, "ArrayOf": true}
+var bigDiv = map[string]bool{"Div": true, "Mod": true, "Quo": true, "Rem": true, "DivMod": true, "QuoRem": true, "SetFrac": true, "Inv": true, "ModInverse": false}
+
+// facts collected over all scanned packages before the walk: named map types and the kind of struct fields by field name
+// (a name declared with different kinds in different structs is unknown)
+var namedMap = map[string]bool{}
+var fieldKind = map[string]string{}
+
+func learnTypes(f *ast.File) {
+	for _, d := range f.Decls {
+		gd, ok := d.(*ast.GenDecl)
+		if !ok || gd.Tok != token.TYPE {
+			continue
+		}
+		for _, sp := range gd.Specs {
+			ts := sp.(*ast.TypeSpec)
+			switch t := ts.Type.(type) {
+			case *ast.MapType:
+				namedMap[ts.Name.Name] = true
+			case *ast.StructType:
+				for _, fl := range t.Fields.List {
+					k := "other"
+					if _, ok := fl.Type.(*ast.MapType); ok {
+						k = "map"
+					}
+					for _, nm := range fl.Names {
+						if old, seen := fieldKind[nm.Name]; seen && old != k {
+							k = "conflict"
+						}
+						fieldKind[nm.Name] = k
+					}
+				}
+			}
+		}
+	}
+}
+
+type fnCtx struct {
+	imports map[string]bool // package names imported by the file
+	fset    *token.FileSet
+	file    string
+	name    string
+	scope   string
+	kindOf  map[string]string   // identifier -> "V" (reflect.Value) | "T" (reflect.Type) | "made" | "map"
+	parent  map[string][]string // identifier -> identifiers it was derived from
+	okOf    map[string][]string // comma-ok flag identifier -> root identifiers of the tested expression
+	out     *[]site
+}
+
+// rootIdents: the identifiers an operand expression is about (package qualifiers and type arguments excluded).
+func rootIdents(e ast.Expr) []string {
+	var out []string
+	var walk func(e ast.Expr)
+	walk = func(e ast.Expr) {
+		switch x := e.(type) {
+		case *ast.Ident:
+			if x.Name != "_" && x.Name != "nil" && x.Name != "any" {
+				out = append(out, x.Name)
+			}
+		case *ast.SelectorExpr:
+			if id, ok := x.X.(*ast.Ident); ok && (id.Name == "reflect" || id.Name == "reflectx" || id.Name == "big" || id.Name == "core") {
+				return
+			}
+			walk(x.X)
+		case *ast.CallExpr:
+			if s, ok := x.Fun.(*ast.SelectorExpr); ok {
+				if id, ok := s.X.(*ast.Ident); !ok || !(id.Name == "reflect" || id.Name == "reflectx") {
+					walk(s.X)
+				}
+			}
+			if _, isIdx := x.Fun.(*ast.IndexExpr); isIdx || len(x.Args) <= 2 {
+				for _, a := range x.Args {
+					walk(a)
+				}
+			}
+		case *ast.IndexExpr:
+			walk(x.X)
+		case *ast.SliceExpr:
+			walk(x.X)
+		case *ast.StarExpr:
+			walk(x.X)
+		case *ast.UnaryExpr:
+			walk(x.X)
+		case *ast.ParenExpr:
+			walk(x.X)
+		case *ast.TypeAssertExpr:
+			walk(x.X)
+		}
+	}
+	walk(e)
+	return out
+}
+
+func (c *fnCtx) family(ids []string) map[string]bool {
+	fam := map[string]bool{}
+	var add func(string, int)
+	add = func(id string, d int) {
+		if fam[id] || d > 6 {
+			return
+		}
+		fam[id] = true
+		for _, p := range c.parent[id] {
+			add(p, d+1)
+		}
+	}
+	for _, id := range ids {
+		add(id, 0)
+	}
+	// children: identifiers derived from a member of the family
+	for changed := true; changed; {
+		changed = false
+		for ch, ps := range c.parent {
+			if fam[ch] {
+				continue
+			}
+			for _, p := range ps {
+				if fam[p] {
+					fam[ch], changed = true, true
+					break
+				}
+			}
+		}
+	}
+	return fam
+}
+
+// derivation: `a := <expr>` links a to the roots of expr when expr is a conversion, reflect constructor, method chain,
+// dereference, index or assertion (never an arbitrary function call with several arguments).
+func (c *fnCtx) learnAssign(lhs []ast.Expr, rhs []ast.Expr) {
+	if len(rhs) == 1 && len(lhs) == 2 {
+		if id, ok := lhs[1].(*ast.Ident); ok && id.Name != "_" {
+			switch rhs[0].(type) {
+			case *ast.TypeAssertExpr, *ast.IndexExpr, *ast.CallExpr:
+				c.okOf[id.Name] = append(c.okOf[id.Name], rootIdents(rhs[0])...)
+			}
+		}
+	}
+	for i, l := range lhs {
+		id, ok := l.(*ast.Ident)
+		if !ok || id.Name == "_" {
+			continue
+		}
+		var r ast.Expr
+		if len(rhs) == len(lhs) {
+			r = rhs[i]
+		} else if len(rhs) == 1 && i == 0 {
+			r = rhs[0]
+		}
+		if r == nil {
+			continue
+		}
+		c.parent[id.Name] = append(c.parent[id.Name], rootIdents(r)...)
+		switch c.exprKind(r) {
+		case "V":
+			c.kindOf[id.Name] = "V"
+		case "T":
+			c.kindOf[id.Name] = "T"
+		case "made":
+			c.kindOf[id.Name] = "made"
+		case "map":
+			c.kindOf[id.Name] = "map"
+		}
+	}
+}
+
+func (c *fnCtx) exprKind(e ast.Expr) string {
+	switch x := e.(type) {
+	case *ast.ParenExpr:
+		return c.exprKind(x.X)
+	case *ast.Ident:
+		return c.kindOf[x.Name]
+	case *ast.CompositeLit:
+		return "made"
+	case *ast.UnaryExpr:
+		if x.Op == token.AND {
+			if _, ok := x.X.(*ast.CompositeLit); ok {
+				return "made"
+			}
+		}
+	case *ast.IndexExpr:
+		if c.exprKind(x.X) == "V" { // element of a []reflect.Value is unknown here
+			return ""
+		}
+	case *ast.CallExpr:
+		fun := x.Fun
+		if ix, ok := fun.(*ast.IndexExpr); ok {
+			fun = ix.X
+		}
+		if id, ok := fun.(*ast.Ident); ok && (id.Name == "make" || id.Name == "append") {
+			return "made"
+		}
+		if s, ok := fun.(*ast.SelectorExpr); ok {
+			if id, ok := s.X.(*ast.Ident); ok && id.Name == "reflect" {
+				if reflVCtor[s.Sel.Name] {
+					return "V"
+				}
+				if reflTCtor[s.Sel.Name] {
+					return "T"
+				}
+				return ""
+			}
+			switch c.exprKind(s.X) {
+			case "V":
+				if s.Sel.Name == "Type" {
+					return "T"
+				}
+				if reflVResult[s.Sel.Name] {
+					return "V"
+				}
+			case "T":
+				if s.Sel.Name == "Elem" || s.Sel.Name == "Key" || s.Sel.Name == "In" || s.Sel.Name == "Out" {
+					return "T"
+				}
+			}
+		}
+	case *ast.SelectorExpr:
+		if c.exprKind(x.X) == "T" && x.Sel.Name == "Type" { // t.Field(i).Type
+			return "T"
+		}
+		if fieldKind[x.Sel.Name] == "map" {
+			return "map"
+		}
+	}
+	return ""
+}
+
+func typeKind(t ast.Expr) string {
+	switch x := t.(type) {
+	case *ast.SelectorExpr:
+		if id, ok := x.X.(*ast.Ident); ok && id.Name == "reflect" {
+			switch x.Sel.Name {
+			case "Value":
+				return "V"
+			case "Type":
+				return "T"
+			}
+		}
+		if namedMap[x.Sel.Name] {
+			return "map"
+		}
+	case *ast.Ident:
+		if namedMap[x.Name] {
+			return "map"
+		}
+	case *ast.MapType:
+		return "map"
+	}
+	return ""
+}
+
+// tests found in a condition expression, as (guard, root identifiers it is about)
+type test struct {
+	guard string
+	ids   []string
+}
+
+func (c *fnCtx) testsOf(e ast.Expr) []test {
+	var out []test
+	ast.Inspect(e, func(n ast.Node) bool {
+		switch x := n.(type) {
+		case *ast.FuncLit:
+			return false
+		case *ast.Ident:
+			if ids, ok := c.okOf[x.Name]; ok {
+				out = append(out, test{"ok", append([]string{x.Name}, ids...)})
+			}
+		case *ast.BinaryExpr:
+			switch x.Op {
+			case token.EQL, token.NEQ, token.LSS, token.LEQ, token.GTR, token.GEQ:
+				for _, pr := range [][2]ast.Expr{{x.X, x.Y}, {x.Y, x.X}} {
+					a, b := pr[0], pr[1]
+					if id, ok := b.(*ast.Ident); ok && id.Name == "nil" {
+						out = append(out, test{"nilTest", rootIdents(a)})
+					}
+					if lit, ok := b.(*ast.BasicLit); ok && (lit.Kind == token.INT || lit.Kind == token.FLOAT) {
+						out = append(out, test{"nonzero", rootIdents(a)})
+					}
+					if call, ok := a.(*ast.CallExpr); ok {
+						if id, ok := call.Fun.(*ast.Ident); ok && id.Name == "len" && len(call.Args) == 1 {
+							out = append(out, test{"len", append(rootIdents(call.Args[0]), rootIdents(b)...)})
+						}
+						if s, ok := call.Fun.(*ast.SelectorExpr); ok {
+							switch s.Sel.Name {
+							case "Len", "NumField", "NumIn", "NumOut", "NumMethod", "Cap":
+								out = append(out, test{"len", append(rootIdents(s.X), rootIdents(b)...)})
+							}
+						}
+					}
+				}
+			}
+		case *ast.CallExpr:
+			if s, ok := x.Fun.(*ast.SelectorExpr); ok {
+				ids := rootIdents(s.X)
+				for _, a := range x.Args {
+					ids = append(ids, rootIdents(a)...)
+				}
+				switch n := s.Sel.Name; {
+				case n == "IsValid":
+					out = append(out, test{"valid", ids})
+				case n == "IsNil":
+					out = append(out, test{"nilTest", ids})
+				case n == "Kind" || n == "Type" || n == "ConvertibleTo" || n == "AssignableTo" || n == "Implements" || n == "Comparable" || n == "CanConvert":
+					out = append(out, test{"kind", ids})
+				case n == "Sign" || n == "IsZero" || n == "IsInt":
+					out = append(out, test{"nonzero", ids})
+				case strings.HasPrefix(n, "Can") || strings.HasPrefix(n, "Is") || strings.HasPrefix(n, "Has"):
+					out = append(out, test{"pred", ids})
+				}
+			}
+			if id, ok := x.Fun.(*ast.Ident); ok && (strings.HasPrefix(id.Name, "is") || strings.HasPrefix(id.Name, "has") || strings.HasPrefix(id.Name, "can")) {
+				var ids []string
+				for _, a := range x.Args {
+					ids = append(ids, rootIdents(a)...)
+				}
+				out = append(out, test{"pred", ids})
+			}
+		}
+		return true
+	})
+	return out
+}
+
+func endsInExit(b *ast.BlockStmt) bool {
+	if b == nil || len(b.List) == 0 {
+		return false
+	}
+	switch x := b.List[len(b.List)-1].(type) {
+	case *ast.ReturnStmt:
+		return true
+	case *ast.BranchStmt:
+		return x.Tok == token.CONTINUE || x.Tok == token.BREAK || x.Tok == token.GOTO
+	case *ast.ExprStmt:
+		if call, ok := x.X.(*ast.CallExpr); ok {
+			if id, ok := call.Fun.(*ast.Ident); ok && id.Name == "panic" {
+				return true
+			}
+		}
+	}
+	return false
+}
+
+// guardsFor collects the tests on the operand's family along the ancestor chain.
+func (c *fnCtx) guardsFor(stack []ast.Node, operand ast.Expr, idx ast.Expr) []string {
+	ids := rootIdents(operand)
+	if idx != nil {
+		ids = append(ids, rootIdents(idx)...)
+	}
+	fam := c.family(ids)
+	found := map[string]bool{}
+	consider := func(ts []test) {
+		for _, t := range ts {
+			for _, id := range t.ids {
+				if fam[id] {
+					found[t.guard] = true
+					break
+				}
+			}
+		}
+	}
+	for _, id := range rootIdents(operand) {
+		if k := c.kindOf[id]; k == "made" {
+			found["made"] = true
+		}
+	}
+	for i := len(stack) - 1; i >= 0; i-- {
+		child := ast.Node(nil)
+		if i+1 < len(stack) {
+			child = stack[i+1]
+		}
+		switch x := stack[i].(type) {
+		case *ast.IfStmt:
+			if child != x.Cond && child != x.Init {
+				consider(c.testsOf(x.Cond))
+			}
+		case *ast.ForStmt:
+			if x.Cond != nil && child == x.Body {
+				consider(c.testsOf(x.Cond))
+			}
+		case *ast.RangeStmt:
+			if child == x.Body {
+				rids := rootIdents(x.X)
+				over := false
+				for _, id := range rids {
+					if fam[id] {
+						over = true
+					}
+				}
+				if k, ok := x.Key.(*ast.Ident); ok && over && idx != nil {
+					for _, id := range rootIdents(idx) {
+						if id == k.Name {
+							found["ranged"] = true
+						}
+					}
+				}
+				if over {
+					found["rangedOver"] = true
+				}
+			}
+		}
+		switch x := stack[i].(type) {
+		case *ast.CaseClause:
+			// the enclosing switch decides what the case list tests
+			if i >= 2 {
+				if sw, ok := stack[i-2].(*ast.SwitchStmt); ok {
+					if sw.Tag != nil {
+						tagTests := c.testsOf(&ast.BinaryExpr{X: sw.Tag, Op: token.EQL, Y: ast.NewIdent("x")})
+						if call, ok := sw.Tag.(*ast.CallExpr); ok {
+							if s, ok := call.Fun.(*ast.SelectorExpr); ok && (s.Sel.Name == "Kind" || s.Sel.Name == "Type") {
+								tagTests = append(tagTests, test{"kind", rootIdents(s.X)})
+							}
+						}
+						consider(tagTests)
+					} else {
+						inList := false // a site inside the case expression is not guarded by that expression
+						for _, e := range x.List {
+							if ast.Node(e) == child {
+								inList = true
+							}
+						}
+						if !inList {
+							for _, e := range x.List {
+								consider(c.testsOf(e))
+							}
+						}
+					}
+				}
+				if ts, ok := stack[i-2].(*ast.TypeSwitchStmt); ok && x.List != nil {
+					var tx ast.Expr
+					switch a := ts.Assign.(type) {
+					case *ast.AssignStmt:
+						tx = a.Rhs[0]
+					case *ast.ExprStmt:
+						tx = a.X
+					}
+					if tx != nil {
+						consider([]test{{"typeswitch", rootIdents(tx)}})
+					}
+				}
+			}
+		}
+		switch x := stack[i].(type) {
+		case *ast.BlockStmt, *ast.CaseClause, *ast.CommClause:
+			var list []ast.Stmt
+			switch b := x.(type) {
+			case *ast.BlockStmt:
+				list = b.List
+			case *ast.CaseClause:
+				list = b.Body
+			case *ast.CommClause:
+				list = b.Body
+			}
+			for _, st := range list {
+				if st == child {
+					break
+				}
+				if is, ok := st.(*ast.IfStmt); ok && endsInExit(is.Body) && is.Else == nil {
+					consider(c.testsOf(is.Cond))
+				}
+				// if x.m == nil { x.m = make(…) }  and  ensureX(x): the operand is initialised in place
+				if is, ok := st.(*ast.IfStmt); ok && is.Else == nil && len(is.Body.List) > 0 {
+					if as, ok := is.Body.List[0].(*ast.AssignStmt); ok && len(as.Lhs) == 1 && exprStr(c.fset, as.Lhs[0]) == exprStr(c.fset, operand) {
+						for _, t := range c.testsOf(is.Cond) {
+							if t.guard == "nilTest" {
+								found["made"] = true
+							}
+						}
+					}
+				}
+				if es, ok := st.(*ast.ExprStmt); ok {
+					if call, ok := es.X.(*ast.CallExpr); ok {
+						if id, ok := call.Fun.(*ast.Ident); ok && strings.HasPrefix(id.Name, "ensure") {
+							for _, a := range call.Args {
+								for _, r := range rootIdents(a) {
+									if fam[r] {
+										found["ensured"] = true
+									}
+								}
+							}
+						}
+					}
+				}
+				if sw, ok := st.(*ast.SwitchStmt); ok && sw.Tag == nil { // switch { case bad: return … }
+					for _, cc := range sw.Body.List {
+						cl := cc.(*ast.CaseClause)
+						if len(cl.Body) > 0 && endsInExit(&ast.BlockStmt{List: cl.Body}) {
+							for _, e := range cl.List {
+								consider(c.testsOf(e))
+							}
+						}
+					}
+				}
+			}
+		case *ast.BinaryExpr: // a && b : a guards b
+			if (x.Op == token.LAND || x.Op == token.LOR) && child == x.Y {
+				consider(c.testsOf(x.X))
+			}
+		}
+	}
+	var out []string
+	for g := range found {
+		out = append(out, g)
+	}
+	sort.Strings(out)
+	return out
+}
+
+func (c *fnCtx) add(stack []ast.Node, kind string, at ast.Node, operand ast.Expr, idx ast.Expr, text string) {
+	g := c.guardsFor(stack, operand, idx)
+	text = strings.Join(strings.Fields(text), " ")
+	if len(text) > 90 {
+		text = text[:90] + "…"
+	}
+	*c.out = append(*c.out, site{file: c.file, fn: c.name, kind: kind, operand: text, guards: g, scope: c.scope, line: c.fset.Position(at.Pos()).Line})
+}
+
+func isIntLit(e ast.Expr) bool {
+	l, ok := e.(*ast.BasicLit)
+	return ok && l.Kind == token.INT
+}
+
+func nonZeroLit(e ast.Expr) bool {
+	if p, ok := e.(*ast.ParenExpr); ok {
+		return nonZeroLit(p.X)
+	}
+	l, ok := e.(*ast.BasicLit)
+	if !ok || (l.Kind != token.INT && l.Kind != token.FLOAT) {
+		return false
+	}
+	return strings.Trim(l.Value, "0._xXeE+-") != ""
+}
+
+// walk visits value expressions only (type positions are skipped) keeping the ancestor stack.
+func (c *fnCtx) walk(n ast.Node, stack []ast.Node, commaOK map[ast.Expr]bool) {
+	if n == nil {
+		return
+	}
+	stack = append(stack, n)
+	rec := func(m ast.Node) {
+		if m != nil && !isNilNode(m) {
+			c.walk(m, stack, commaOK)
+		}
+	}
+	switch x := n.(type) {
+	case *ast.BlockStmt:
+		for _, s := range x.List {
+			rec(s)
+		}
+	case *ast.ExprStmt:
+		rec(x.X)
+	case *ast.AssignStmt:
+		if len(x.Lhs) == 2 && len(x.Rhs) == 1 {
+			commaOK[x.Rhs[0]] = true
+		}
+		for _, r := range x.Rhs {
+			rec(r)
+		}
+		c.learnAssign(x.Lhs, x.Rhs)
+		for _, l := range x.Lhs {
+			if ix, ok := l.(*ast.IndexExpr); ok {
+				if lit, ok := ix.Index.(*ast.BasicLit); !ok || lit.Kind != token.STRING || c.exprKind(ix.X) != "made" {
+					c.add(stack, "store", ix, ix.X, ix.Index, exprStr(c.fset, ix))
+				}
+				rec(ix.X)
+				rec(ix.Index)
+			} else {
+				rec(l)
+			}
+		}
+		if x.Tok == token.QUO_ASSIGN || x.Tok == token.REM_ASSIGN {
+			if !nonZeroLit(x.Rhs[0]) {
+				c.add(stack, "div", x, x.Rhs[0], nil, exprStr(c.fset, x.Rhs[0]))
+			}
+		}
+	case *ast.DeclStmt:
+		if gd, ok := x.Decl.(*ast.GenDecl); ok {
+			for _, sp := range gd.Specs {
+				if vs, ok := sp.(*ast.ValueSpec); ok {
+					if len(vs.Names) == 2 && len(vs.Values) == 1 {
+						commaOK[vs.Values[0]] = true
+					}
+					for _, v := range vs.Values {
+						rec(v)
+					}
+					var lhs []ast.Expr
+					for _, nm := range vs.Names {
+						lhs = append(lhs, nm)
+						if k := typeKind(vs.Type); k != "" && vs.Type != nil {
+							c.kindOf[nm.Name] = k
+						}
+					}
+					if len(vs.Values) > 0 {
+						c.learnAssign(lhs, vs.Values)
+					}
+				}
+			}
+		}
+	case *ast.IfStmt:
+		rec(x.Init)
+		rec(x.Cond)
+		rec(x.Body)
+		rec(x.Else)
+	case *ast.ForStmt:
+		rec(x.Init)
+		rec(x.Cond)
+		rec(x.Post)
+		rec(x.Body)
+	case *ast.RangeStmt:
+		rec(x.X)
+		if call, ok := x.X.(*ast.CallExpr); ok { // for _, k := range v.MapKeys()
+			if s, ok := call.Fun.(*ast.SelectorExpr); ok && s.Sel.Name == "MapKeys" {
+				if id, ok := x.Value.(*ast.Ident); ok {
+					c.kindOf[id.Name] = "V"
+				}
+			}
+		}
+		for _, kv := range []ast.Expr{x.Key, x.Value} {
+			if id, ok := kv.(*ast.Ident); ok && id.Name != "_" {
+				c.parent[id.Name] = append(c.parent[id.Name], rootIdents(x.X)...)
+			}
+		}
+		rec(x.Body)
+	case *ast.SwitchStmt:
+		rec(x.Init)
+		rec(x.Tag)
+		rec(x.Body)
+	case *ast.TypeSwitchStmt:
+		rec(x.Init)
+		switch a := x.Assign.(type) { // the guard expression itself is not an assertion site
+		case *ast.AssignStmt:
+			if ta, ok := a.Rhs[0].(*ast.TypeAssertExpr); ok {
+				rec(ta.X)
+				if id, ok := a.Lhs[0].(*ast.Ident); ok {
+					c.parent[id.Name] = append(c.parent[id.Name], rootIdents(ta.X)...)
+				}
+			}
+		case *ast.ExprStmt:
+			if ta, ok := a.X.(*ast.TypeAssertExpr); ok {
+				rec(ta.X)
+			}
+		}
+		rec(x.Body)
+	case *ast.CaseClause:
+		for _, e := range x.List {
+			if _, isSw := stack[max(0, len(stack)-3)].(*ast.TypeSwitchStmt); !isSw {
+				rec(e)
+			}
+		}
+		for _, s := range x.Body {
+			rec(s)
+		}
+	case *ast.SelectStmt:
+		rec(x.Body)
+	case *ast.CommClause:
+		rec(x.Comm)
+		for _, s := range x.Body {
+			rec(s)
+		}
+	case *ast.ReturnStmt:
+		for _, r := range x.Results {
+			rec(r)
+		}
+	case *ast.DeferStmt:
+		rec(x.Call)
+	case *ast.GoStmt:
+		rec(x.Call)
+	case *ast.SendStmt:
+		rec(x.Chan)
+		rec(x.Value)
+	case *ast.IncDecStmt:
+		rec(x.X)
+	case *ast.LabeledStmt:
+		rec(x.Stmt)
+	// ---- expressions
+	case *ast.ParenExpr:
+		rec(x.X)
+	case *ast.FuncLit:
+		rec(x.Body)
+	case *ast.CompositeLit:
+		for _, e := range x.Elts {
+			rec(e)
+		}
+	case *ast.KeyValueExpr:
+		rec(x.Key)
+		rec(x.Value)
+	case *ast.StarExpr:
+		rec(x.X)
+	case *ast.UnaryExpr:
+		rec(x.X)
+	case *ast.SelectorExpr:
+		rec(x.X)
+	case *ast.BinaryExpr:
+		rec(x.X)
+		rec(x.Y)
+		if (x.Op == token.QUO || x.Op == token.REM) && !nonZeroLit(x.Y) {
+			c.add(stack, "div", x, x.Y, nil, exprStr(c.fset, x.Y))
+		}
+	case *ast.TypeAssertExpr:
+		rec(x.X)
+		if x.Type != nil && !commaOK[x] {
+			c.add(stack, "assert", x, x.X, nil, exprStr(c.fset, x))
+		}
+	case *ast.IndexExpr:
+		rec(x.X)
+		rec(x.Index)
+		if lit, ok := x.Index.(*ast.BasicLit); ok && lit.Kind == token.STRING {
+			break // only a map can be indexed by a string literal; map reads do not panic
+		}
+		if commaOK[x] || c.exprKind(x.X) == "map" {
+			break // v, ok := m[k] — a map read
+		}
+		if sel, ok := x.X.(*ast.SelectorExpr); ok {
+			if id, ok := sel.X.(*ast.Ident); ok && c.imports[id.Name] {
+				break // pkg.GenericFunc[T] used as a value
+			}
+		}
+		if typeLooking(x.Index) {
+			break // a generic instantiation used as a value
+		}
+		c.add(stack, "index", x, x.X, x.Index, exprStr(c.fset, x))
+	case *ast.SliceExpr:
+		rec(x.X)
+		lits := true
+		for _, b := range []ast.Expr{x.Low, x.High, x.Max} {
+			if b != nil {
+				rec(b)
+				if !isIntLit(b) || b != x.Low || !strings.HasPrefix(b.(*ast.BasicLit).Value, "0") {
+					lits = false
+				}
+			}
+		}
+		if !lits {
+			var idx ast.Expr
+			for _, b := range []ast.Expr{x.Low, x.High} {
+				if b != nil && !isIntLit(b) {
+					idx = b
+				}
+			}
+			c.add(stack, "slice", x, x.X, idx, exprStr(c.fset, x))
+		}
+	case *ast.CallExpr:
+		fun := x.Fun
+		switch f := fun.(type) {
+		case *ast.IndexExpr: // generic instantiation F[T](…)
+			fun = f.X
+		case *ast.IndexListExpr:
+			fun = f.X
+		}
+		args := x.Args
+		switch f := fun.(type) {
+		case *ast.Ident:
+			switch f.Name {
+			case "panic":
+				c.add(stack, "panic", x, x, nil, exprStr(c.fset, x))
+			case "make", "new":
+				if len(args) > 0 { // first argument is a type (new(expr) of go1.26 takes a value: walk it when it is not a type-looking node)
+					switch args[0].(type) {
+					case *ast.ArrayType, *ast.MapType, *ast.ChanType, *ast.StarExpr, *ast.FuncType, *ast.InterfaceType, *ast.StructType, *ast.IndexExpr, *ast.IndexListExpr, *ast.SelectorExpr:
+						args = args[1:]
+					case *ast.Ident:
+						if f.Name == "make" {
+							args = args[1:]
+						}
+					}
+				}
+			}
+			if strings.HasPrefix(f.Name, "Must") && c.scope != "must" {
+				c.add(stack, "mustcall", x, x, nil, f.Name)
+			}
+		case *ast.SelectorExpr:
+			rec(f.X)
+			name := f.Sel.Name
+			pkg := ""
+			if id, ok := f.X.(*ast.Ident); ok {
+				pkg = id.Name
+			}
+			rk := c.exprKind(f.X)
+			switch {
+			case pkg == "reflect":
+				if reflPkgPanics[name] {
+					var op ast.Expr = x
+					if len(x.Args) > 0 {
+						op = x.Args[0]
+					}
+					c.add(stack, "reflectV", x, op, nil, "reflect."+name+"("+exprStr(c.fset, op)+")")
+				}
+			case rk == "T":
+				if reflTPanics[name] {
+					c.add(stack, "reflectT", x, f.X, nil, exprStr(c.fset, f.X)+"."+name)
+				}
+			case rk == "V" && (reflVDistinct[name] || reflVAmbiguous[name]):
+				c.add(stack, "reflectV", x, f.X, nil, exprStr(c.fset, f.X)+"."+name)
+			case rk == "" && reflVDistinct[name] && !c.imports[pkg] && !strings.HasPrefix(name, "Set") && !strings.Contains(exprStr(c.fset, f.X), "big."):
+				c.add(stack, "reflectV", x, f.X, nil, exprStr(c.fset, f.X)+"."+name)
+			}
+			if bigDiv[name] && len(x.Args) >= 2 && !c.imports[pkg] {
+				c.add(stack, "bigdiv", x, x.Args[len(x.Args)-1], nil, exprStr(c.fset, f.X)+"."+name+"(…, "+exprStr(c.fset, x.Args[len(x.Args)-1])+")")
+			}
+			if strings.HasPrefix(name, "Must") && c.scope != "must" {
+				c.add(stack, "mustcall", x, x, nil, exprStr(c.fset, f.X)+"."+name)
+			}
+		case *ast.ArrayType, *ast.MapType, *ast.ChanType, *ast.FuncType, *ast.InterfaceType:
+			// conversion to a type literal
+		default:
+			rec(fun)
+		}
+		for _, a := range args {
+			rec(a)
+		}
+	}
+}
+
+// typeLooking: an index that can only be a type argument (*T, pkg.Type with an upper-case name, a one-letter type parameter,
+// a predeclared type name, a type literal)
+func typeLooking(e ast.Expr) bool {
+	switch x := e.(type) {
+	case *ast.StarExpr, *ast.ArrayType, *ast.MapType, *ast.FuncType, *ast.InterfaceType, *ast.ChanType, *ast.StructType:
+		return true
+	case *ast.Ident:
+		switch x.Name {
+		case "any", "string", "bool", "int", "int8", "int16", "int32", "int64", "uint", "uint8", "uint16", "uint32", "uint64", "float32", "float64", "complex64", "complex128", "error", "byte", "rune":
+			return true
+		}
+		return len(x.Name) == 1 && x.Name[0] >= 'A' && x.Name[0] <= 'Z'
+	}
+	return false
+}
+
+func fileImports(f *ast.File) map[string]bool {
+	out := map[string]bool{}
+	for _, im := range f.Imports {
+		p := strings.Trim(im.Path.Value, "\"")
+		n := p[strings.LastIndex(p, "/")+1:]
+		if im.Name != nil {
+			n = im.Name.Name
+		}
+		out[n] = true
+	}
+	return out
+}
+
+func isNilNode(n ast.Node) bool {
+	switch x := n.(type) {
+	case *ast.BlockStmt:
+		return x == nil
+	case ast.Stmt:
+		return x == nil
+	case ast.Expr:
+		return x == nil
+	}
+	return false
+}
+
+func hasRecover(body *ast.BlockStmt) bool {
+	for _, st := range body.List {
+		if d, ok := st.(*ast.DeferStmt); ok {
+			if fl, ok := d.Call.Fun.(*ast.FuncLit); ok {
+				found := false
+				ast.Inspect(fl.Body, func(n ast.Node) bool {
+					if call, ok := n.(*ast.CallExpr); ok {
+						if id, ok := call.Fun.(*ast.Ident); ok && id.Name == "recover" {
+							found = true
+						}
+					}
+					return true
+				})
+				if found {
+					return true
+				}
+			}
+		}
+	}
+	return false
+}
+
+func recvName(fd *ast.FuncDecl) string {
+	if fd.Recv == nil || len(fd.Recv.List) == 0 {
+		return ""
+	}
+	t := fd.Recv.List[0].Type
+	for {
+		switch x := t.(type) {
+		case *ast.StarExpr:
+			t = x.X
+			continue
+		case *ast.IndexExpr:
+			t = x.X
+			continue
+		case *ast.IndexListExpr:
+			t = x.X
+			continue
+		case *ast.Ident:
+			return x.Name + "."
+		}
+		return ""
+	}
+}
+
+func collectSites(repo string) ([]site, map[string]int) {
+	fset := token.NewFileSet()
+	var sites []site
+	funcs := map[string]int{}
+	var dirs []string
+	for _, d := range siteDirs {
+		root := filepath.Join(repo, d)
+		if d == "." {
+			dirs = append(dirs, root)
+			continue
+		}
+		_ = filepath.WalkDir(root, func(p string, e os.DirEntry, err error) error {
+			if err == nil && e.IsDir() {
+				dirs = append(dirs, p)
+			}
+			return nil
+		})
+	}
+	sort.Strings(dirs)
+	for _, dir := range dirs {
+		for _, f := range parseDir(token.NewFileSet(), dir) {
+			learnTypes(f)
+		}
+	}
+	for _, dir := range dirs {
+		for _, f := range parseDir(fset, dir) {
+			rel, _ := filepath.Rel(repo, fset.Position(f.Pos()).Filename)
+			imps := fileImports(f)
+			for _, d := range f.Decls {
+				switch fd := d.(type) {
+				case *ast.FuncDecl:
+					if fd.Body == nil {
+						continue
+					}
+					c := &fnCtx{imports: imps, fset: fset, file: rel, name: recvName(fd) + fd.Name.Name, scope: "plain", kindOf: map[string]string{}, parent: map[string][]string{},
+						okOf: map[string][]string{}, out: &sites}
+					switch {
+					case strings.HasPrefix(fd.Name.Name, "Must") || strings.HasPrefix(fd.Name.Name, "must"):
+						c.scope = "must"
+					case fd.Name.Name == "init" && fd.Recv == nil:
+						c.scope = "initf"
+					case hasRecover(fd.Body):
+						c.scope = "recovered"
+					}
+					for _, fl := range [](*ast.FieldList){fd.Recv, fd.Type.Params, fd.Type.Results} {
+						if fl == nil {
+							continue
+						}
+						for _, p := range fl.List {
+							for _, nm := range p.Names {
+								if k := typeKind(p.Type); k != "" {
+									c.kindOf[nm.Name] = k
+								}
+							}
+						}
+					}
+					funcs[rel]++
+					c.walk(fd.Body, nil, map[ast.Expr]bool{})
+				case *ast.GenDecl:
+					if fd.Tok != token.VAR {
+						continue
+					}
+					for _, sp := range fd.Specs {
+						vs := sp.(*ast.ValueSpec)
+						for i, v := range vs.Values {
+							nm := "var"
+							if i < len(vs.Names) {
+								nm = "var " + vs.Names[i].Name
+							}
+							c := &fnCtx{imports: imps, fset: fset, file: rel, name: nm, scope: "initf", kindOf: map[string]string{}, parent: map[string][]string{}, okOf: map[string][]string{}, out: &sites}
+							c.walk(v, nil, map[ast.Expr]bool{})
+						}
+					}
+				}
+			}
+		}
+	}
+	return sites, funcs
+}
+
+// fnv64: FNV-1a over the code points of s (what vlib/c04.py recomputes for the reviewed list)
+func fnv64(s string) uint64 {
+	h := uint64(14695981039346656037)
+	for _, r := range s {
+		h ^= uint64(r)
+		h *= 1099511628211
+	}
+	return h
+}
+
+func siteKey(s site) string { return s.file + ":" + s.fn + ":" + s.kind + ":" + s.operand }
+
+func genPanicSites(repo, dir string) {
+	sites, funcs := collectSites(repo)
+	if len(sites) < 200 || len(funcs) < 50 {
+		die("panic-site translator found only %d sites in %d files: the tree does not look like gozod", len(sites), len(funcs))
+	}
+	sort.SliceStable(sites, func(i, j int) bool {
+		if sites[i].file != sites[j].file {
+			return sites[i].file < sites[j].file
+		}
+		if sites[i].fn != sites[j].fn {
+			return sites[i].fn < sites[j].fn
+		}
+		if sites[i].kind != sites[j].kind {
+			return sites[i].kind < sites[j].kind
+		}
+		return sites[i].operand < sites[j].operand
+	})
+	// identical (file, func, kind, operand, guards, scope) rows are merged with a count: line numbers are not part of the table
+	type row struct {
+		s site
+		n int
+	}
+	var rows []row
+	for _, s := range sites {
+		if k := len(rows) - 1; k >= 0 && siteKey(rows[k].s) == siteKey(s) && strings.Join(rows[k].s.guards, ",") == strings.Join(s.guards, ",") {
+			rows[k].n++
+			continue
+		}
+		rows = append(rows, row{s, 1})
+	}
+	var b strings.Builder
+	b.WriteString("-- REGENERATED by harness/cmd/c04gen (sites.go; go/ast over the non-test files of the root package, coerce/, core/, internal/,\n")
+	b.WriteString("-- jsonschema/, locales/, pkg/, types/): every construct that can panic at run time, with the syntactic guards found on its operand.\n")
+	b.WriteString("namespace Gozod.Gen.PanicSites\n\n")
+	b.WriteString("inductive Kind\n  | assert | reflectV | reflectT | store | index | slice | div | bigdiv | panic | mustcall\n  deriving Repr, DecidableEq\n\n")
+	b.WriteString("inductive Guard\n  | ok | typeswitch | kind | valid | nilTest | len | ranged | rangedOver | nonzero | made | ensured | pred\n  deriving Repr, DecidableEq\n\n")
+	b.WriteString("inductive Scope\n  | plain | recovered | must | initf\n  deriving Repr, DecidableEq\n\n")
+	b.WriteString("/-- one panic site class: `count` occurrences of `operand` (kind `kind`) in function `fn` of `file` with the same guards;\n")
+	b.WriteString("    `pkg` = top-level directory; `fkey` = file:fn; `key` = file:fn:kind:operand (×count when > 1) — what a reviewed exception names;\n")
+	b.WriteString("    `fid` / `kid` = FNV-1a (64 bit, over the code points) of fkey / key: the proofs compare these numbers, never the strings\n")
+	b.WriteString("    (string comparison is prohibitively slow in the kernel); `notParse`: the file belongs to jsonschema/. -/\n")
+	b.WriteString("structure Site where\n  pkg : String\n  file : String\n  fn : String\n  kind : Kind\n  operand : String\n  guards : List Guard\n  scope : Scope\n  count : Nat\n  fkey : String\n  key : String\n  fid : Nat\n  kid : Nat\n  notParse : Bool\n  deriving Repr\n\n")
+	// chunked so that no single definition is huge
+	const chunk = 200
+	var names []string
+	for i := 0; i < len(rows); i += chunk {
+		nm := fmt.Sprintf("sites%d", i/chunk)
+		names = append(names, nm)
+		fmt.Fprintf(&b, "def %s : List Site := [\n", nm)
+		end := min(i+chunk, len(rows))
+		for j := i; j < end; j++ {
+			r := rows[j]
+			gs := make([]string, len(r.s.guards))
+			for k, g := range r.s.guards {
+				gs[k] = "." + g
+			}
+			sep := ","
+			if j == end-1 {
+				sep = ""
+			}
+			key := siteKey(r.s)
+			if r.n > 1 {
+				key += fmt.Sprintf("×%d", r.n)
+			}
+			pkg := "."
+			if i := strings.IndexByte(r.s.file, '/'); i > 0 {
+				pkg = r.s.file[:i]
+			}
+			fkey := r.s.file + ":" + r.s.fn
+			fmt.Fprintf(&b, "  ⟨%s, %s, %s, .%s, %s, [%s], .%s, %d, %s, %s, %d, %d, %v⟩%s\n", q(pkg), q(r.s.file), q(r.s.fn), r.s.kind, q(r.s.operand), strings.Join(gs, ", "), r.s.scope, r.n, q(fkey), q(key), fnv64(fkey), fnv64(key), pkg == "jsonschema", sep)
+		}
+		b.WriteString("]\n\n")
+	}
+	fmt.Fprintf(&b, "def sites : List Site := %s\n\n", strings.Join(names, " ++ "))
+	fmt.Fprintf(&b, "def filesScanned : Nat := %d\n\nend Gozod.Gen.PanicSites\n", len(funcs))
+	writeIfChanged(filepath.Join(dir, "PanicSites.lean"), b.String())
+	// human-readable sidecar with line numbers (not part of the proof): .build is not tracked
+	var t strings.Builder
+	for _, s := range sites {
+		fmt.Fprintf(&t, "%s:%d\t%s\t%s\t%s\t[%s]\t%s\n", s.file, s.line, s.fn, s.kind, s.operand, strings.Join(s.guards, ","), s.scope)
+	}
+	t.WriteString("#ROWS\n")
+	for _, r := range rows {
+		key := siteKey(r.s)
+		if r.n > 1 {
+			key += fmt.Sprintf("×%d", r.n)
+		}
+		fmt.Fprintf(&t, "%s\t%s\t[%s]\t%s\n", key, r.s.kind, strings.Join(r.s.guards, ","), r.s.scope)
+	}
+	if side := os.Getenv("C04_SITES_TSV"); side != "" {
+		_ = os.WriteFile(side, []byte(t.String()), 0o644)
+	}
+}
